@@ -39,11 +39,12 @@ M = [
  # C11
  ("C11", "unsync-fit-lt", S+"unsync.rs", "      .checked_add(size)\n      .filter(|want| *want <= self.cap);\n    if let Some(want) = want {\n      let offset = header.allocated;", "      .checked_add(size)\n      .filter(|want| *want < self.cap);\n    if let Some(want) = want {\n      let offset = header.allocated;"),
  # C12
- ("C12", "relaxed-header-and-link", S+"sync.rs", "      .store(encode_segment_node(self.data_size, next), Ordering::Release);", "      .store(encode_segment_node(self.data_size, next), Ordering::Relaxed);"),
+ ("C12", "relaxed-header-only-benign", S+"sync.rs", "      .store(encode_segment_node(self.data_size, next), Ordering::Release);", "      .store(encode_segment_node(self.data_size, next), Ordering::Relaxed);"),
+ ("C12", "relaxed-header-and-link", S+"sync.rs", ["      .store(encode_segment_node(self.data_size, next), Ordering::Release);", "        encode_segment_node(node_size, segment_node.ptr_offset),\n        Ordering::AcqRel,\n        Ordering::Relaxed,"], ["      .store(encode_segment_node(self.data_size, next), Ordering::Relaxed);", "        encode_segment_node(node_size, segment_node.ptr_offset),\n        Ordering::Relaxed,\n        Ordering::Relaxed,"]),
+ ("C12", "relaxed-traversal-loads", S+"sync.rs", ["      let sentinel = header.sentinel.load(Ordering::Acquire);\n      let (sentinel_node_size, head_node_offset) = decode_segment_node(sentinel);\n\n      // free list is empty\n      if sentinel_node_size == SENTINEL_SEGMENT_NODE_SIZE\n        && head_node_offset == SENTINEL_SEGMENT_NODE_OFFSET\n      {\n        return Err(", "      let head_node_size_and_next_node_offset = head.load(Ordering::Acquire);\n      let (head_node_size, next_node_offset) =\n        decode_segment_node(head_node_size_and_next_node_offset);\n\n      if head_node_size == REMOVED_SEGMENT_NODE {\n        // the head node is marked as removed, wait other thread to make progress.\n        backoff.snooze();\n        continue;\n      }\n\n      // The larget"], ["      let sentinel = header.sentinel.load(Ordering::Relaxed);\n      let (sentinel_node_size, head_node_offset) = decode_segment_node(sentinel);\n\n      // free list is empty\n      if sentinel_node_size == SENTINEL_SEGMENT_NODE_SIZE\n        && head_node_offset == SENTINEL_SEGMENT_NODE_OFFSET\n      {\n        return Err(", "      let head_node_size_and_next_node_offset = head.load(Ordering::Relaxed);\n      let (head_node_size, next_node_offset) =\n        decode_segment_node(head_node_size_and_next_node_offset);\n\n      if head_node_size == REMOVED_SEGMENT_NODE {\n        // the head node is marked as removed, wait other thread to make progress.\n        backoff.snooze();\n        continue;\n      }\n\n      // The larget"]),
  ("C12", "relaxed-cursor-cas", S+"sync.rs", "      .compare_exchange(offset + size, offset, Ordering::SeqCst, Ordering::Relaxed)", "      .compare_exchange(offset + size, offset, Ordering::Relaxed, Ordering::Relaxed)"),
  ("C12", "relaxed-refs-drop", S+"sync.rs", "      if memory.refs().fetch_sub(1, Ordering::Release) != 1 {", "      if memory.refs().fetch_sub(1, Ordering::Relaxed) != 1 {"),
  # C13
- ("C13", "to-owned-no-detach", S+"bytes.rs", "    self.detach = true;\n\n    BytesMut {", "    self.detach = self.allocated.memory_size % 5 != 0;\n\n    BytesMut {"),
  ("C13", "owned-ignores-detached", S+"object.rs", "      Kind::Inline(_) => {\n        if !self.detached {\n          // SAFETY: offset and offset + size are inbounds of the ARENA.\n          unsafe {\n            self\n              .arena\n              .dealloc(self.allocated.memory_offset, self.allocated.memory_size);\n          }\n        }\n      }\n      Kind::Dangling(_) => {}\n    }\n  }\n}\n\n/// A mutable reference", "      Kind::Inline(_) => {\n        {\n          // SAFETY: offset and offset + size are inbounds of the ARENA.\n          unsafe {\n            self\n              .arena\n              .dealloc(self.allocated.memory_offset, self.allocated.memory_size);\n          }\n        }\n      }\n      Kind::Dangling(_) => {}\n    }\n  }\n}\n\n/// A mutable reference"),
  ("C13", "unsync-clone-no-count", S+"unsync.rs", "      let old_size = memory.refs().fetch_add(1, Ordering::Release);", "      let old_size = memory.refs().fetch_add((self.cap % 3 != 0) as usize, Ordering::Release);"),
  # C14
@@ -60,7 +61,7 @@ M = [
  ("C17", "end-no-floor", S+"unsync.rs", "      ArenaPosition::End(offset) => match cap.checked_sub(offset) {\n        Some(val) => val.max(data_offset),", "      ArenaPosition::End(offset) => match cap.checked_sub(offset) {\n        Some(val) => val.max(data_offset.saturating_sub(1)),"),
  # C18
  ("C18", "truncate-copies-less", S+"memory.rs", "          ptr::copy_nonoverlapping(aligned_vec.ptr.as_ptr(), ptr, allocated);\n          self.ptr = ptr;\n        }\n\n        *aligned_vec = new;\n      }\n      MemoryBackend::MmapMut {", "          ptr::copy_nonoverlapping(aligned_vec.ptr.as_ptr(), ptr, allocated - (allocated > 200) as usize);\n          self.ptr = ptr;\n        }\n\n        *aligned_vec = new;\n      }\n      MemoryBackend::MmapMut {"),
- ("C18", "truncate-floor-missing", S+"unsync.rs", "    let allocated = self.allocated();\n    if allocated >= size {\n      size = allocated;\n    }\n\n    unsafe {\n      let memory = self.inner.as_mut();\n      memory.truncate(allocated, size)?;", "    let allocated = self.allocated();\n    if allocated >= size + 3 {\n      size = allocated;\n    }\n    let size = size.max(allocated.min(size + 3));\n\n    unsafe {\n      let memory = self.inner.as_mut();\n      memory.truncate(allocated, size)?;"),
+ ("C18", "truncate-stale-cap", S+"unsync.rs", "      memory.truncate(allocated, size)?;\n      self.ptr = memory.as_mut_ptr();\n      self.cap = memory.cap();", "      memory.truncate(allocated, size)?;\n      self.ptr = memory.as_mut_ptr();\n      self.cap = memory.cap().min(self.cap.max(allocated as u32 + 64));"),
  # C19
  ("C19", "skip-remainder", S+"allocator.rs", "    if remaining_bytes > 0 {\n      let start = full_pages * page_size;", "    if remaining_bytes > 1 {\n      let start = full_pages * page_size;"),
  ("C19", "includes-reserved", S+"allocator.rs", "    let data = &allocated_memory[reserved..];\n", "    let data = &allocated_memory[reserved.saturating_sub(1)..];\n"),
@@ -81,9 +82,13 @@ def main():
     for prop, name, f, old, new in M:
         p = os.path.join(WT, f)
         s = open(p).read()
-        if s.count(old) < 1:
+        olds = old if isinstance(old, list) else [old]
+        news = new if isinstance(new, list) else [new]
+        if any(s.count(o) < 1 for o in olds):
             print("NO MATCH", prop, name); bad += 1; continue
-        open(p, "w").write(s.replace(old, new, 1))
+        for o, n in zip(olds, news):
+            s = s.replace(o, n)
+        open(p, "w").write(s)
         d = sh("git", "-C", WT, "diff")
         open(f"/verif/mutants/{prop}-{name}.diff", "w").write(d)
         sh("git", "-C", WT, "checkout", "--", ".")
